@@ -459,7 +459,11 @@ IdObsChecks(o, id) ==
     Chk("C16", "eq_raw", o.eq_raw /\ o.ne_other /\ o.copy_eq /\ o.hash_eq),
     Chk("C16", "json_form", o.json = JsonOf(id)),
     Chk("C16", "debug_form", o.debug = DebugOf(id)),
-    Chk("C16", "display_form", o.display = DisplayOf(id)),
+    \* ... also under the alternate flag and inside (pretty-)printed containers: "[\n    <id>,\n]", "Some(<id>)"
+    Chk("C16", "debug_form_alternate", o.debug_alt = DebugOf(id)
+                                        /\ o.debug_vec_alt = <<91, 10, 32, 32, 32, 32>> \o DebugOf(id) \o <<44, 10, 93>>
+                                        /\ o.debug_opt = <<83, 111, 109, 101, 40>> \o DebugOf(id) \o <<41>>),
+    Chk("C16", "display_form", o.display = DisplayOf(id) /\ o.to_string = o.display),
     Chk("C16", "json_round_trip", o.back = <<id>>),
     Chk("C16", "json_round_trip_other_entry_points", o.back_value = <<id>> /\ o.back_reader = <<id>> /\ o.back_slice = <<id>>),
     \* as the key of a JSON object the id is the same string
